@@ -89,7 +89,10 @@ func (c *BaseTableMetaCache) Init(ctx context.Context) error {
 // refresh
 func (c *BaseTableMetaCache) refresh(ctx context.Context) {
 	f := func() {
+		// GetTableMeta inserts into the cache under the lock: read it under the lock as well
+		c.lock.RLock()
 		if c.db == nil || c.cfg == nil || c.cache == nil || len(c.cache) == 0 {
+			c.lock.RUnlock()
 			return
 		}
 
@@ -97,6 +100,7 @@ func (c *BaseTableMetaCache) refresh(ctx context.Context) {
 		for table := range c.cache {
 			tables = append(tables, table)
 		}
+		c.lock.RUnlock()
 		conn, err := c.db.Conn(ctx)
 		if err != nil {
 			return
